@@ -270,6 +270,11 @@ func (t *TrafBox) OptimizeTfhdTrun() error {
 			trun.Flags = trun.Flags & ^TrunSampleCompositionTimeOffsetPresentFlag
 		}
 	}
+	if len(trun.Samples) > maxNrSamplesWithoutSampleData && !trun.HasSampleDuration() && !trun.HasSampleSize() &&
+		!trun.HasSampleFlags() && !trun.HasSampleCompositionTimeOffset() {
+		// The trun decoders refuse such a long run without any per-sample field: keep the durations
+		trun.Flags = trun.Flags | TrunSampleDurationPresentFlag
+	}
 	return nil
 }
 
